@@ -130,9 +130,15 @@ def run(ctx):
                f"tmc{o['tmc']}:{o['xc']}/{o['qc']}:{clause}")
         ctx.violation(key, f"{o['name']}_{pt['flav']} {pt['proc']} {pt['fns']}(NfFF={pt['nfff']}) PTODIS={pt['pto']} PTO={pt['ptoEvol']} "
                       f"TMC={o['tmc']} x:{o['xc']} Q2:{o['qc']}: {clause} {ln['msg']}", dict(kind="C16", obligation=o, observed=ln))
+    # the grammar of observable names (Names.tla): which names are a documented configuration at all
+    from .. import names
+    names.run(ctx, "C16")
 
 
 def replay(ctx, obj):
+    if obj.get("kind") == "names":
+        from .. import names
+        return names.replay(ctx, obj)
     o = obj["obligation"]
     ln = execute(o)
     bad = ctx.tlc_validate("Trace_C16", "Trace.cfg", [{k: v for k, v in ln.items() if k != "msg"}])
